@@ -27,6 +27,8 @@ from mc.props import c09
 
 PROPERTY = 'C10'
 ASSUMPTIONS = [
+    "Calendar.drange is observed for non-business-day bumps only (the property's observation point): every string ending in 'b', compound ones like '1w0b' "
+    "included, is read there as a business-day count of the calendar (int(bump[:-1])) and is left out; drange itself is checked on them",
     "zero-length bumps (0, timedelta(0), '0d', '0b', ...) are excluded: drange(t0, t1, '0d') does not return; the statement does not say what a bump "
     'that points nowhere should do',
     'month-based bumps (m/q/y, and compound tenors / alternative spellings containing them) start from days of month <= 28 and from midnight only '
@@ -54,7 +56,7 @@ DAY = datetime.timedelta(1)
 ZERO = datetime.timedelta(0)
 K = [1, -1, 2, -2, 3, -3, 5, -5]
 NS7 = [n for k in range(1, 8) for n in (k, -k)]
-COMPOUND = ['1m1d', '-1m-1d', '1w-1d', '1d12h', '-1d-12h', '2b1d', '-1d12h', '-1d1w', '-1w1d', '1d-36h']          # (a sign belongs to its own piece only)
+COMPOUND = ['1m1d', '-1m-1d', '1w-1d', '1d12h', '-1d-12h', '2b1d', '-1d12h', '-1d1w', '-1w1d', '1d-36h', '1w0b', '0b1w']          # (a sign belongs to its own piece only)
 ALT = ['+1d', '2D', '+3b', '-2B', '-1W', '+1w-1D', '+1m', '-1M', '1M1D']          # other spellings of bumps of the alphabet
 ALT_LONG = ['+1m', '-1M', '1M1D', '+1Y', '-2Q']
 TODS_DAY = [[0, 0, 0, 0], [9, 30, 0, 0], [9, 30, 0, 5]]            # the last one carries microseconds (rrule drops them)
@@ -137,7 +139,7 @@ def bumps_for(group, month_ok):
         for u in 'mqy':
             for k in K:
                 bs.append(_str_bump('%d%s' % (k, u)))
-        for s in ('1m1d', '-1m-1d'):
+        for s in ('1m1d', '-1m-1d', '1m0b', '0b1m', '-1m0b'):          # a ZERO business-day piece is not a no-op: it rolls a weekend / holiday forward
             bs.append(_str_bump(s))
         for n in (1499, 1500, -1500, 2000):          # a step of many days is a step like any other (an int that large is only read as a YEAR where a date is expected)
             bs.append(Bump('int:%d' % n, 'int', n, [('int', n)], eqkey=n))
@@ -353,7 +355,8 @@ def sweep(out, rec, state, drange, cal, t0, d, group, ends, bumps):
                 out.nontrivial(key)
             sig = dict(bump=b.kind, dir=dcls, sign=b.sign, step=bool(b.k is not None and abs(b.k) > 1))
             calls = [('drange', lambda: drange(t0, t1, b.arg))]
-            if cal is not None and b.sem != 'b' and ei % CAL_EVERY == 0:
+            # (Calendar.drange takes every string ENDING in 'b' for a business-day count of its own calendar: outside what is observed here, like 'kb' itself)
+            if cal is not None and b.sem != 'b' and not (isinstance(b.arg, str) and b.arg[-1:] in 'bB') and ei % CAL_EVERY == 0:
                 calls.append(('Calendar.drange', lambda: cal.drange(t0, t1, b.arg)))
             if group == 'days' and label.endswith('d') and ei % 3 == 1:
                 # the end point spelt RELATIVE to the explicit start: an int number of days, a timedelta or an 'nd' string
